@@ -70,7 +70,7 @@ def _bs_case(check: Check, bs, degree, inner, lb, ub, ii, mode, tmo, state=None,
         ref_in = bspline_basis(X, knots, degree, extend=False)
         yield "reference: partition of unity inside", z3.Implies(inside, sum(ref_in) == 1)
         cells = {i: out[i][0] for i in want_keys}
-        if mode == "na":
+        if mode == "na" and cells:  # (degree 0 without knots and without intercept has no column to look at)
             outside_ok = all(_is_nan(v) for v in cells.values())
             anynan = any(_is_nan(v) for v in cells.values())
             yield "na: NaN exactly outside the bounds", (z3.Not(inside) if anynan else inside) if (outside_ok or not anynan) else False
